@@ -30,6 +30,22 @@ CLAIMED = {
         "symlinks) as a model of Path.resolve for generated trees; harness.  CLI glue is tested, not proved.",
    technique="Coq proof by induction on fuel/include tree + vm_compute correspondence on generated include graphs",
    design_ref="DESIGN.md §6 C13"),
+ "C14": dict(
+   category="proof",
+   text="Two halves. (1) Theorems in coq/Props/C14.v (closed) about a Gallina model of format_error's location arithmetic: a call site "
+        "that passes the 0-based index i of the offending line displays the file and 1-based line that the line map attributes to it "
+        "(composed with C13's provenance: the author's own file and line), a site passing i+1 never does, and for any site table "
+        "forallb site_ok t = true implies every site displays the true location.  (2) The site table is regenerated from /repo's "
+        "current source on every run by a fail-closed Python-ast translator (every format_error/raise site in bardic/compiler/parsing, "
+        "its line_num argument classified interprocedurally) and the finite obligation forallb site_ok site_table = true is re-proved by "
+        "vm_compute, so an added or edited call site is seen even if no input reaches it.  Behavioural oracle: every diagnosable "
+        "construct placed on every line of host stories, in the main file / an included file / after included content; the file and "
+        "line parsed from the message must be the true ones.  Sites that carry no line or index a dedented loop body are listed "
+        "known findings (F14b), each by call site.",
+   note="Trusted: Coq kernel + vm_compute; the ast translator (harness/c14_sites.py, fail-closed on unknown shapes); Diag.v tied to "
+        "errors.py by random differential cases; that a site's index is the construct's own line is established per construct kind by the oracle.",
+   technique="generated site table (Python ast -> Coq) + Coq proof of location arithmetic + placement sweep oracle",
+   design_ref="DESIGN.md §6 C14"),
 }
 
 ALL = [f"C{i:02d}" for i in range(1, 21)]
